@@ -102,7 +102,14 @@ def r2(c):
     san = [(i, s) for i, s in aggs if s['rv']['variant'] == 'SanOrCommonName']
     c.ob('full_pki/none-disables', len(dis) == 1 and q.dominated_by_any(f, none, ('b', dis[0][0])), 'name verification is disabled only when no server name was given (None arm)', '%d sites' % len(dis), loc_of(f))
     tf = [cs for cs in f.calls() if cs.declared == 'core::convert::TryFrom::try_from' and 'ServerName' in cs.gargs]
-    oks = len(san) == 1 and len(tf) == 1 and q.dominated_by_any(f, some, ('b', san[0][0])) and q.dominated_by_any(f, q.outcomes(f, tf[0]).get('success', []), ('b', san[0][0]))
+    # (the verifier may be written down before the conversion is attempted - `(SanOrCommonName, ServerName::try_from(n)?)` -
+    #  what matters is that it is not *used* unless the conversion succeeded)
+    use = [cs for cs in f.calls('sfio_rustls_config::client::authority')]
+    okc = False
+    if len(tf) == 1 and len(use) == 1 and some:
+        succ_e = set(q.outcomes(f, tf[0]).get('success', []))
+        okc = bool(succ_e) and all(use[0].node not in f.reach_set(e, avoid=succ_e) for e in some)
+    oks = len(san) == 1 and len(tf) == 1 and q.dominated_by_any(f, some, ('b', san[0][0])) and okc
     if oks:
         a0 = q.sem(f, tf[0].args[0])
         oks = q.sem_is_name(f, a0, 'server_subject_name') and q.has_success(a0.proj)
@@ -215,9 +222,11 @@ def r3(c):
         nx = sorted(nx, key=lambda cs: sum(1 for o in nx if b.dominates(o.node, cs.node)))
         first, second = nx
         isome = [cs for cs in b.calls('core::option::Option::is_some') if q.sem(b, cs.args[0]).kind == 'call' and q.sem(b, cs.args[0]).cs is second]
-        ok = bool(xs) and len(isome) == 1
+        # "no second one": `second.is_some()` is false, or the second next() is matched as None (`match (it.next(), it.next())`)
+        no_second = q.bool_edges(b, isome[0])['false'] if len(isome) == 1 else q.outcomes(b, second).get('None', [])
+        ok = bool(xs) and bool(no_second)
         for x in xs:
-            ok = ok and q.dominated_by_any(b, q.outcomes(b, first).get('success', []), x['node']) and q.dominated_by_any(b, q.bool_edges(b, isome[0])['false'], x['node'])
+            ok = ok and q.dominated_by_any(b, q.outcomes(b, first).get('success', []), x['node']) and q.dominated_by_any(b, no_second, x['node'])
             cl = b.op_closure(x['rv']['a'][0])
             ok = ok and any(y[0] == 'call' and y[2] == first.block for y in cl)
         ok = ok and q.same_value(b, first.args[0], second.args[0]) or (ok and set(q.chain_names(b, first.args[0])) & set(q.chain_names(b, second.args[0])))
@@ -322,7 +331,9 @@ def r4(c):
     hd = one(tc.calls(CH + '::handle'), 'connection_handler.handle')
     rc = one(tc.calls('rodbus::tcp::client::TcpChannelTask::run_connection'), 'run_connection')
     a = q.sem(tc, rc.args[1])
-    c.ob('client/run-after-handle', q.dominated_by_any(tc, q.outcomes(tc, hd).get('Ok', []), rc.node) and a.kind == 'call' and a.cs is hd, 'run_connection starts only on the Ok edge of the connection handler, on its physical layer', repr(a), rc.loc())
+    alts = q.sem_alts(tc, rc.args[1])
+    okp = bool(alts) and all(x.kind == 'call' and x.cs is hd and q.has_success(x.proj) for x in alts)
+    c.ob('client/run-after-handle', q.dominated_by_any(tc, q.outcomes(tc, hd).get('Ok', []), rc.node) and okp, 'run_connection starts only on the Ok edge of the connection handler, on its physical layer', repr(alts), rc.loc())
     callers = sorted({P.logical_name(x.body) for x in P.callers('rodbus::tcp::client::TcpChannelTask::run_connection')})
     c.ob('client/run_connection-callers', callers == ['rodbus::tcp::client::TcpChannelTask::try_connect_and_run'], 'run_connection is only reached from try_connect_and_run', str(callers))
     ch = P.fn(CH + '::handle')
